@@ -89,7 +89,10 @@ def scan(F, rep, ENGINE_FILES):
         exp = s.get("exp") or []
         ok = any("macro:Bang:debug" in e or "$crate::event" in e or "lazy_static" in e for e in exp)
         nst += 1
-        if not ok and not s["mut"] and not any(x in s["ty"] for x in INTERIOR) and "*" not in s["ty"] and "fn(" not in s["ty"] and "dyn " not in s["ty"]:
+        LOCAL_MODS = ("tokeniser::", "parser::", "identifier::", "solver::", "value::", "rule::", "optimiser::", "document::", "error::")
+        paths_ = re.findall(r"[A-Za-z_]\w*(?:::\w+)+", s["ty"])
+        plain_ty = all(p_.startswith(LOCAL_MODS) for p_ in paths_)  # only primitives, str, arrays/tuples and this crate's own plain enums
+        if not ok and plain_ty and not s["mut"] and not any(x in s["ty"] for x in INTERIOR) and "*" not in s["ty"] and "fn(" not in s["ty"] and "dyn " not in s["ty"]:
             # a hand-written immutable table of plain data: a constant with an address, no state
             rep.ok("EFFECT-STATIC", "EFFECT-STATIC/plain/" + s["path"], s["sp"], "immutable static of plain data (no interior mutability)", s["ty"][:80])
             plain_statics.add(s["path"])
